@@ -181,10 +181,10 @@ VARIANTS = {
     "fp_O0": ("g++", ["-std=c++17", "-O0", "-w", "-DVH_FP", "-DBSPLINE_INTERPOLATION_USE_EIGEN"]),
     "fp_O3": ("g++", ["-std=c++17", "-O3", "-w", "-DVH_FP", "-DBSPLINE_INTERPOLATION_USE_EIGEN"]),
     "fp_clang": ("clang++-14", ["-std=c++17", "-O2", "-w", "-DVH_FP", "-DBSPLINE_INTERPOLATION_USE_EIGEN"]),
-    "exactd": ("g++", ["-std=c++17", "-O2", "-w", "-DVH_SCALAR=double", "-pthread"]),
-    "exact_thr": ("g++", ["-std=c++17", "-O1", "-w", "-pthread"]),
-    "tsan": ("clang++-14", ["-std=c++17", "-O1", "-g", "-w", "-fsanitize=thread", "-pthread"]),
-    "tsand": ("clang++-14", ["-std=c++17", "-O1", "-g", "-w", "-fsanitize=thread", "-pthread", "-DVH_SCALAR=double"]),
+    "exactd": ("g++", ["-std=c++17", "-O2", "-w", "-DVH_SCALAR=double", "-pthread", "-DVH_CONST_OPERANDS"]),
+    "exact_thr": ("g++", ["-std=c++17", "-O1", "-w", "-pthread", "-DVH_CONST_OPERANDS"]),
+    "tsan": ("clang++-14", ["-std=c++17", "-O1", "-g", "-w", "-fsanitize=thread", "-pthread", "-DVH_CONST_OPERANDS"]),
+    "tsand": ("clang++-14", ["-std=c++17", "-O1", "-g", "-w", "-fsanitize=thread", "-pthread", "-DVH_SCALAR=double", "-DVH_CONST_OPERANDS"]),
     "ex": ("g++", ["-std=c++17", "-O2", "-w", "-DBSPLINE_INTERPOLATION_USE_EIGEN", "-DBSPLINE_ADD_TEST_CHECKS"]),
     "ex_san": ("clang++-14", ["-std=c++17", "-O1", "-g", "-w", "-DBSPLINE_INTERPOLATION_USE_EIGEN", "-DBSPLINE_ADD_TEST_CHECKS", "-fsanitize=address,undefined",
                               "-fno-sanitize-recover=undefined", "-fno-omit-frame-pointer", "-D_GLIBCXX_DEBUG"]),
@@ -418,8 +418,10 @@ def write_replay(prop, payload):
 
 
 # --------------------------------------------------------------------------- threaded Exec (C18)
-def exec_threaded(binp, case_lines, workdir, nthreads, timeout=900, env=None, lockstep=False):
-    """vh --threads N: returns (seq_events, [per-thread events], quiescent, rc, stderr)."""
+def exec_threaded(binp, case_lines, workdir, nthreads, timeout=900, env=None, lockstep=False, schedule=None):
+    """vh --threads N: returns (seq_events, [per-thread events], quiescent, rc, stderr).
+    schedule: "free" | "lockstep" | "fresh" (see harness/vh_main.cpp)."""
+    schedule = schedule or ("lockstep" if lockstep else "free")
     ensure(workdir)
     inp = os.path.join(workdir, "cases.ndjson")
     pre = os.path.join(workdir, "out")
@@ -431,7 +433,7 @@ def exec_threaded(binp, case_lines, workdir, nthreads, timeout=900, env=None, lo
     e.update(env or {})
     e.setdefault("TSAN_OPTIONS", "exitcode=66:halt_on_error=0:second_deadlock_stack=1:history_size=7")
     try:
-        p = subprocess.run([binp, "--threads", str(nthreads), inp, pre] + (["lockstep"] if lockstep else []), stdout=subprocess.PIPE, stderr=subprocess.PIPE, timeout=timeout, env=e)
+        p = subprocess.run([binp, "--threads", str(nthreads), inp, pre] + ([schedule] if schedule != "free" else []), stdout=subprocess.PIPE, stderr=subprocess.PIPE, timeout=timeout, env=e)
         rc, err = p.returncode, p.stderr.decode(errors="replace")
     except subprocess.TimeoutExpired:
         rc, err = -9, "timeout"
